@@ -31,14 +31,13 @@ func hDispatcher14(route *Route) *Dispatcher {
 // and consumed by its real worker goroutines; the engine explores every assignment
 // of updates to workers and every interleaving at channel / sync.Map / store-lock
 // granularity. At quiescence every group holding the alert holds the version
-// submitted last. Natively the conflicting routeAlert calls are replayed
-// sequentially in the commit order the engine found.
+// submitted last. Natively the same goroutines run with the engine's schedule
+// enforced at the synchronisation points involved.
 //
 //vf:quick unwind=12 decisions=300 paths=200000 preempt=1 goroutines=8
 //vf:thorough unwind=12 decisions=400 paths=2000000 preempt=2 goroutines=10
 //vf:expect reach=quiescent
-//vf:twin
-//vf:note concurrent exploration in the engine; native replay is a linearised twin (routeAlert calls executed sequentially in the engine's commit order)
+//vf:note the real worker goroutines run natively as well, with the engine's schedule enforced by the sequencer
 func VerifC14_Order() {
 	gw := model.Duration(100 * time.Hour)
 	cr := &config.Route{Receiver: "r", GroupBy: []model.LabelName{"alertname"}, GroupWait: &gw}
@@ -79,17 +78,7 @@ func VerifC14_Order() {
 		versions[i] = a
 	}
 
-	if vfNative() {
-		// linearised twin: apply the updates sequentially, the one the engine saw
-		// committed last goes last
-		last := vfImport("lastCommitted")
-		for i, a := range versions {
-			if i != last {
-				d.routeAlert(d.ctx, a)
-			}
-		}
-		d.routeAlert(d.ctx, versions[last])
-	} else {
+	{
 		ch := make(chan *provider.Alert, n)
 		done := make(chan struct{})
 		it := provider.NewAlertIterator(ch, done, nil)
@@ -122,12 +111,19 @@ func VerifC14_Order() {
 			return true
 		})
 	}
-	vfExport("lastCommitted", lastIdx)
+	_ = lastIdx
 	if two {
 		vfAssert("in-both-groups", groups == 2)
 	} else {
 		vfAssert("in-its-group", groups == 1)
 	}
+	// shut the dispatcher down (what Stop does, plus releasing the start-timer goroutine)
 	d.cancel()
+	if vfNative() {
+		// natively no goroutine may be left behind in the test's bubble
+		d.state.Store(DispatcherStateStopped)
+		d.startTimer.Reset(0)
+		d.finished.Wait()
+	}
 	_ = context.Background
 }
